@@ -166,6 +166,13 @@ def check(rep, proof):
         return
     results = res["results"]
     oracle_bad = [(i, r["viol"]) for i, r in enumerate(results) if r["viol"]]
+    # the parallel archipelago: the real ParallelArchipelago on the deterministic mpi4py stand-in of the C12 harness (2-5 ranks,
+    # blocking and non-blocking calls, random interleavings); its evolutionary algorithm is the identity, individuals carry tags
+    from props import c12
+    prng = random.Random(rep.seed + 11)
+    pcases = [c12.gen_case(prng) for _ in range(60 if rep.tier == "quick" else 1200)]
+    prc, pres, pout, _ = vlib.run_impl("c12", dict(cases=pcases, seed=rep.seed), timeout=3000)
+    par = pres["migration"] if pres is not None else dict(checks=0, exchanging_ranks=0, viol=["the parallel harness crashed: %s" % pout[-400:]])
     pairs = [(coq_case(c, r["tape"]), r["out"]) for c, r in zip(cases, results)]
     bad, log = vlib.coq_compare("c11", HEADER, RUNNER, pairs)
     rep.coverage.update(
@@ -178,18 +185,24 @@ def check(rep, proof):
              "two islands and two individuals; distinct by (layout, recorded tape)",
         samples=[dict(case=cases[len(exh)], tape=results[len(exh)]["tape"])],
         correspondence=dict(cases=len(cases), disagreements=len(bad), exhaustive_small_scope=len(exh)),
-        oracle_violations=len(oracle_bad),
+        oracle_violations=len(oracle_bad) + len(par["viol"]),
+        parallel_archipelago=dict(evolve_calls_checked=par["checks"], ranks_whose_population_changed=par["exchanging_ranks"],
+                                  rank_counts=sorted({c["n"] for c in pcases}), violations=len(par["viol"])),
         distribution=dict(islands=dict((k, sum(len(c["isls"]) == k for c in cases)) for k in range(1, 8)),
                           odd_sized=sum(any(len(i) % 2 for i in c["isls"]) for c in cases)),
     )
     rep.assumptions += [
         "np.random.shuffle permutes its argument in place (the harness records the permutation it applied)",
-        "the parallel archipelago's migration phase is part of the C12 transition system, not of this check",
+        "the parallel archipelago's migration is checked by the oracle only (multiset and sizes over all ranks, on the mpi4py stand-in "
+        "of C12); Model/Migration.v is the serial pairing - the parallel pairing by sendrecv is not modelled",
     ]
     if oracle_bad:
         i, v = oracle_bad[0]
         rep.violation("; ".join(v), dict(case=cases[i], tape=results[i]["tape"], observed=results[i]["out"], oracle=v,
                                          numpy_seed=(rep.seed + 7919 * i) % 2 ** 31))
+    elif par["viol"]:
+        rep.violation(par["viol"][0][:700], dict(kind="ParallelArchipelago.evolve on the mpi4py stand-in", oracle=par["viol"][:4],
+                                                 how="tools/props/c12.py impl_main with c12.gen_case (seed %d + 11)" % rep.seed))
     elif bad:
         first = bad[0]
         mo = None if isinstance(first, tuple) else vlib.coq_eval_one(HEADER, "%s %s" % (RUNNER, pairs[first][0]))
